@@ -117,7 +117,7 @@ def gen_group_keys(rng, n, levels, prefix="G", maxruns=4, reuse_inner=True):
 
 
 def gen_df(rng, n, ncols, *, convert=True, group_cols=0, subline_cols=0, groupby_cols=0,
-           row_base=0, maxruns=4, key=True, groupby_nulls=False, long_p=0.0):
+           row_base=0, maxruns=4, key=True, groupby_nulls=False, long_p=0.0, divider_p=0.2):
     """-> (dfspec, meta).  Grouping columns are placed at random positions; one
     designated key column holds the d<row>c<col> tags."""
     total = ncols
@@ -174,6 +174,11 @@ def gen_df(rng, n, ncols, *, convert=True, group_cols=0, subline_cols=0, groupby
         else:
             dt, vals = gen_column(rng, n, convert=convert, long_p=long_p)
             cols.append({"name": name, "dtype": dt, "values": vals})
+    # one whole page_by group may be the '-----' divider (rendered without a heading)
+    if pg and n and rng.random() < divider_p:
+        col = cols[rng.choice(pg)]
+        target = rng.choice(sorted(set(col["values"])))
+        col["values"] = ["-----" if v == target else v for v in col["values"]]
     meta = {"key": keypos, "page_by": [f"N{j}" for j in pg], "subline_by": [f"N{j}" for j in sb],
             "group_by": [f"N{j}" for j in gb], "row_base": row_base, "nrows": n}
     return {"cols": cols}, meta
